@@ -81,11 +81,28 @@ func (b *B) UnmarshalJSON(data []byte) error {
 
 // ---- Coq literals ----
 
-// CoqBytes renders a byte string as a list of N literals (in N scope).
+// CoqBytes renders a byte string as a list of N literals (in N scope).  Long strings
+// are emitted as a concatenation of 1000-element chunks (one huge list literal
+// overflows coqc's stack).
 func CoqBytes(b []byte) string {
 	if len(b) == 0 {
 		return "(@nil N)"
 	}
+	if len(b) > 1500 {
+		var parts []string
+		for i := 0; i < len(b); i += 1000 {
+			j := i + 1000
+			if j > len(b) {
+				j = len(b)
+			}
+			parts = append(parts, coqBytesFlat(b[i:j]))
+		}
+		return "(List.concat [" + strings.Join(parts, ";\n ") + "])"
+	}
+	return coqBytesFlat(b)
+}
+
+func coqBytesFlat(b []byte) string {
 	var sb strings.Builder
 	sb.WriteString("[")
 	for i, x := range b {
@@ -165,6 +182,10 @@ type Case struct {
 	Input interface{} `json:"input"`
 	Obs   interface{} `json:"obs"`
 	Coq   string      `json:"-"`
+	// Crash != "" : the implementation failed abruptly (panic / hang) on this case; the
+	// driver reports it as a violation with signature <prop>/<part>/crash and the case
+	// is left out of the Coq shard.
+	Crash string `json:"crash,omitempty"`
 }
 
 type Result struct {
@@ -183,6 +204,13 @@ type Result struct {
 // through the functions mismatches/violations/tags exported by the Check module.
 func Write(o Opts, prop, part, header, caseType string, cases []Case, dist map[string]int, extra map[string]interface{}, shardSize int) {
 	res := Result{Property: prop, Part: part, Seed: o.Seed, Tier: o.Tier, Cases: cases, Dist: dist, Extra: extra}
+	all := cases
+	cases = nil
+	for _, c := range all {
+		if c.Crash == "" {
+			cases = append(cases, c)
+		}
+	}
 	old, _ := filepath.Glob(filepath.Join(o.Out, "cases_"+part+"_*.v"))
 	for _, f := range old {
 		os.Remove(f)
